@@ -12,6 +12,7 @@ HEADER = r'''// Unit `dual_ops`: rust/dual/dual_ops/*.rs -- GENERATED skeleton b
 //@ include spec/ad.rs
 
 use core::ops::{Add, Sub, Mul, Div, Neg, Rem};
+use core::cmp::Ordering;
 
 //@ include contracts/dual_ops_head.vx
 
